@@ -14,6 +14,7 @@
     attr_value_roundtrip uri_attrs_scheme_serialised default_config_script_free
     html_reparse_safe_partial xhtml_reparse_safe_partial default_config_markup_ok css_pass_order_matters
     attr_values_decode_stable html_reparse_events_safe_partial redecode_witness
+    css_ok css_no_negative_margin password_inputs_dropped no_password_input password_rule_reference_witness
 -/
 import Genshi.Lemmas.SanNest
 import Genshi.Lemmas.SanTree
@@ -23,6 +24,7 @@ import Genshi.Lemmas.SanCssUrl
 import Genshi.Lemmas.SanRoundtrip
 import Genshi.Lemmas.SanReparse
 import Genshi.Lemmas.SanLayer
+import Genshi.Lemmas.SanRules
 import Genshi.Props.C08
 namespace Genshi.Props.C06
 open Genshi Genshi.San Genshi.San.Spec
@@ -332,6 +334,43 @@ theorem css_urls_safe {cfg : Cfg} (hcfg : CssNamesPlain cfg) {s o : Stream} (h :
   rw [hj] at harg
   exact sanitizeCss_urls_safe css_comments_dotall hcfg hd arg harg sch hb
 
+/-- **The whole emitted style value is acceptable to the browser-side reader** — the single
+    statement of the spec half: `cssOk schemes v` = after decoding (escapes, comments, to a fixed
+    point) `v` holds no `expression(` in any spelling, and every `url(` argument has no scheme or
+    one of `schemes`.  It is the predicate the oracle applies to the real output (`css_problems`
+    of the harness, compared with `cssOk` on every run: stream `spec-cssok`). -/
+theorem css_ok {cfg : Cfg} (hcfg : CssNamesPlain cfg) {s o : Stream} (h : sanitize cfg s = .ok o)
+    {tag : QName} {attrs : AttrList} (hm : Event.start tag attrs ∈ o)
+    {a : QName × Str} (ha : a ∈ attrs) (hs : a.1.text = styleWord) (hu : styleWord ∉ cfg.uriAttrs) :
+    cssOk cfg.safeSchemes a.2 = true := by
+  unfold cssOk
+  simp only [Bool.and_eq_true, Bool.not_eq_true', List.all_eq_true]
+  refine ⟨css_no_expression hcfg h hm ha hs hu, ?_⟩
+  intro arg harg
+  unfold schemeOk
+  cases hb : browserScheme (trimArg arg) with
+  | none => rfl
+  | some sch =>
+    have := css_urls_safe hcfg h hm ha hs hu harg hb
+    simpa using this
+
+/-- **No negative margins, only whitelisted properties**: the emitted style value is the
+    `'; '`-joined list of declarations `name:value` each of which has a property name (stripped,
+    lower-cased) of `safe_css`, and none of which is a `margin…` property with a `-` in its value
+    (`is_safe_css`: "negative margins can be used for phishing").  With `css_decode_fixed` the
+    text that was checked is the text the browser reads. -/
+theorem css_no_negative_margin {cfg : Cfg} {s o : Stream} (h : sanitize cfg s = .ok o)
+    {tag : QName} {attrs : AttrList} (hm : Event.start tag attrs ∈ o)
+    {a : QName × Str} (ha : a ∈ attrs) (hs : a.1.text = styleWord) (hu : styleWord ∉ cfg.uriAttrs) :
+    ∃ decls, a.2 = Genshi.Str.join declSep decls ∧ ∀ d ∈ decls, ∃ pn value,
+      split1 ':' d = (pn, some value) ∧ pyLower (pyStrip pn) ∈ cfg.safeCss ∧
+      ¬ (marginWord.isPrefixOf (pyLower (pyStrip pn)) = true ∧ '-' ∈ pyStrip value) := by
+  obtain ⟨x, decls, hd, hj⟩ := style_attr_emitted h hm ha hs hu
+  refine ⟨decls, hj, ?_⟩
+  intro d hdm
+  obtain ⟨pn, value, hsp, hsafe⟩ := sanitizeCss_isSafeCss hd d hdm
+  exact ⟨pn, value, hsp, isSafeCss_true hsafe⟩
+
 /-- a configuration that allows `style` attributes -/
 def styleCfg : Cfg := { Cfg.default with safeAttrs := styleWord :: Cfg.default.safeAttrs }
 def styleName : QName := ⟨[], styleWord⟩
@@ -361,6 +400,86 @@ example : sanitizeCss styleCfg ['t', 'o', 'p', ':', '\\', '5', 'c', ' ', '7', '5
     .ok [['t', 'o', 'p', ':', '\\', '\\', '7', '5', ' ', 'r', 'l', '(', 'x', ')']] ∧
     cssDecode ['t', 'o', 'p', ':', '\\', '\\', '7', '5', ' ', 'r', 'l', '(', 'x', ')'] =
       ['t', 'o', 'p', ':', '\\', '\\', '7', '5', ' ', 'r', 'l', '(', 'x', ')'] := by decide +kernel
+
+-- non-vacuity of `css_ok` / `css_no_negative_margin`: a style attribute with a negative margin,
+-- an unlisted property and two harmless declarations; the last two are emitted and are `cssOk`
+example : sanitize styleCfg [.start divTag [(styleName,
+      ['m', 'a', 'r', 'g', 'i', 'n', '-', 'l', 'e', 'f', 't', ':', '-', '9', 'p', 'x', ';', 'p', 'o', 's', 'i', 't', 'i', 'o',
+       'n', ':', 'f', 'i', 'x', 'e', 'd', ';', 'M', 'a', 'r', 'g', 'i', 'n', ':', '1', 'p', 'x', ';', 'c', 'o', 'l', 'o', 'r',
+       ':', 'u', 'r', 'l', '(', 'h', 't', 't', 'p', ':', 'x', ')'])], .end_ divTag] =
+    .ok [.start divTag [(styleName, ['M', 'a', 'r', 'g', 'i', 'n', ':', '1', 'p', 'x', ';', ' ', 'c', 'o', 'l', 'o', 'r', ':',
+       'u', 'r', 'l', '(', 'h', 't', 't', 'p', ':', 'x', ')'])], .end_ divTag] ∧
+    cssOk styleCfg.safeSchemes ['M', 'a', 'r', 'g', 'i', 'n', ':', '1', 'p', 'x', ';', ' ', 'c', 'o', 'l', 'o', 'r', ':',
+       'u', 'r', 'l', '(', 'h', 't', 't', 'p', ':', 'x', ')'] = true ∧
+    cssOk styleCfg.safeSchemes ['c', 'o', 'l', 'o', 'r', ':', 'u', 'r', 'l', '(', 'j', 's', ':', 'x', ')'] = false := by
+  decide +kernel
+
+/-! ## The password rule of `is_safe_elem`
+
+  "Password fields can be used for phishing": an `input` element (by `QName.localname`) whose
+  `type` attribute, lower-cased, is `password` is treated like an element outside the safe set.
+  The code looks at the `type` value of the INPUT event, before the attribute loop decodes
+  character references in it; so the statement about the output alone needs the hypothesis that
+  the `type` values of the input hold no reference (true of what html.parser + genshi's HTML
+  parser deliver except for triple-encoded references, see `password_rule_reference_witness`). -/
+
+/-- Every emitted START event stems from an input START event of the same tag whose attributes
+    were filtered and which was no password field: `localname = input ∧ lower(type) = password`
+    is false of the input element — for all streams. -/
+theorem password_inputs_dropped {cfg : Cfg} {s o : Stream} (h : sanitize cfg s = .ok o)
+    {tag : QName} {attrs : AttrList} (hm : Event.start tag attrs ∈ o) :
+    ∃ attrs0, Event.start tag attrs0 ∈ s ∧ sanAttrs cfg attrs0 = .ok attrs ∧
+      ¬ (localname tag = inputWord ∧ pyLower (attrGet attrs0 typeWord) = passwordWord) := by
+  obtain ⟨st1, e, hes, hem⟩ := sanitizeFrom_mem h _ hm
+  cases hem with
+  | start tag' attrs0 as he hw hsafe has =>
+    subst he
+    refine ⟨attrs0, hes, has, ?_⟩
+    rintro ⟨hl, ht⟩
+    unfold isSafeElem at hsafe
+    simp [hl, ht] at hsafe
+  | other hw hns hnc => exact absurd rfl (hns tag attrs)
+
+/-- **The output never contains a password field**: no emitted `input` element has a `type`
+    attribute that is `password` in any letter case — when the `type` values of the input stream
+    hold no character reference and `type` is not configured as a URI attribute. -/
+theorem no_password_input {cfg : Cfg} (hu : typeWord ∉ cfg.uriAttrs) {s o : Stream}
+    (hplain : ∀ t as, Event.start t as ∈ s → ∀ a ∈ as, a.1.text = typeWord → stripentities a.2 = .ok a.2)
+    (h : sanitize cfg s = .ok o) {tag : QName} {attrs : AttrList} (hm : Event.start tag attrs ∈ o)
+    (hl : localname tag = inputWord) : pyLower (attrGet attrs typeWord) ≠ passwordWord := by
+  obtain ⟨attrs0, hin, has, hno⟩ := password_inputs_dropped h hm
+  have hu' : cfg.uriAttrs.contains typeWord = false := by
+    cases hc : cfg.uriAttrs.contains typeWord with
+    | false => rfl
+    | true => exact absurd (by simpa using hc) hu
+  rw [sanAttrs_attrGet_type hu' attrs0 attrs (hplain tag attrs0 hin) has]
+  by_cases hs : cfg.safeAttrs.contains typeWord = true
+  · rw [if_pos hs]; exact fun ht => hno ⟨hl, ht⟩
+  · rw [if_neg hs]; exact pyLower_nil_ne_password
+
+def inputTag : QName := ⟨[], inputWord⟩
+def typeName : QName := ⟨[], typeWord⟩
+
+/-- The hypothesis of `no_password_input` is needed (observation, outside the property text): the
+    rule reads the undecoded value, the attribute loop then decodes it — `type="pass&#119;ord"`
+    in the event stream is emitted as `type="password"`. -/
+theorem password_rule_reference_witness :
+    sanitize Cfg.default [.start inputTag [(typeName, ['p', 'a', 's', 's', '&', '#', '1', '1', '9', ';', 'o', 'r', 'd'])],
+      .end_ inputTag] = .ok [.start inputTag [(typeName, passwordWord)], .end_ inputTag] := by
+  decide +kernel
+
+-- non-vacuity: a password field (mixed case) is dropped with its content, also under a name in
+-- the EMPTY namespace (`QName('}input')`: string value `{}input`, local name `input`) when the
+-- configuration lists that name; a text field is kept
+example : sanitize Cfg.default [.start inputTag [(typeName, ['P', 'a', 's', 's', 'W', 'o', 'r', 'd'])],
+    .text ['x'] false, .end_ inputTag, .start inputTag [(typeName, ['t', 'e', 'x', 't'])], .end_ inputTag] =
+    .ok [.start inputTag [(typeName, ['t', 'e', 'x', 't'])], .end_ inputTag] := by decide +kernel
+example : localname ⟨[], ['{', '}', 'i', 'n', 'p', 'u', 't']⟩ = inputWord ∧
+    localname ⟨['u'], inputWord⟩ = inputWord ∧ localname ⟨[], ['{', 'i', 'n', 'p', 'u', 't']⟩ = inputWord ∧
+    (⟨[], ['{', '}', 'i', 'n', 'p', 'u', 't']⟩ : QName).text = ['{', '}', 'i', 'n', 'p', 'u', 't'] := by decide
+example : sanitize { Cfg.default with safeTags := ['{', '}', 'i', 'n', 'p', 'u', 't'] :: Cfg.default.safeTags }
+    [.start ⟨[], ['{', '}', 'i', 'n', 'p', 'u', 't']⟩ [(typeName, passwordWord)], .text ['x'] false,
+     .end_ ⟨[], ['{', '}', 'i', 'n', 'p', 'u', 't']⟩] = .ok [] := by decide +kernel
 
 /-! ## After serialisation (attribute values)
 
@@ -432,8 +551,10 @@ theorem default_config_script_free :
   unsafe `url(`, and no comment, processing instruction or DOCTYPE at all.
 
   `_partial`: the hypotheses are those of C08's tree round trips — `strip_whitespace=False`, no
-  doctype option, input leaves are plain (non-Markup) text or comments (`plainForest`; PIs, DOCTYPE,
-  CDATA and namespace events are not covered), and the names of the configuration can be written as
+  doctype option, input leaves are plain (non-Markup) text, comments, the markers of CDATA sections
+  in any arrangement and processing instructions that hold a `>` (`plainForest`: everything the
+  repaired filter drops, and text; PIs that are kept, DOCTYPE, XML declarations and namespace
+  events are not covered: C08's tree round trips have no such leaves), and the names of the configuration can be written as
   markup (`CfgMarkupOk`, true of the default sets: `default_config_markup_ok`); for XHTML
   additionally no LF/TAB/CR in the emitted attribute values (finding C08-attr-ws). -/
 
@@ -539,6 +660,17 @@ example : (do
     let txt ← Genshi.Output.render .html { strip := false, cache := true, doctype := none, dropXmlDecl := true } o
     Genshi.Reader.tokens false txt) =
     some [.start ['d', 'i', 'v'] [] false, .text ['a', '<', 'b'], .end_ ['d', 'i', 'v']] := by decide +kernel
+
+-- non-vacuity: CDATA markers (closed around `]]><s>`, then unclosed) and a PI holding `>` are
+-- inside `plainForest`; the text of the section is read back as text, not as markup
+example : plainForest [.leaf .startCdata, .leaf (.text [']', ']', '>', '<', 's', '>'] false), .leaf .endCdata,
+    .elem divTag [] [.leaf .startCdata, .leaf (.pi ['x'] ['a', '>', '<', 's'])]] = true := by decide
+example : (do
+    let o ← (sanitize Cfg.default [.start divTag [], .startCdata, .text [']', ']', '>', '<', 's', '>'] false, .endCdata,
+      .pi ['x'] ['a', '>', '<', 's'], .startCdata, .end_ divTag]).toOption
+    let txt ← Genshi.Output.render .xhtml { strip := false, cache := true, doctype := none, dropXmlDecl := true } o
+    Genshi.Reader.tokens true txt) =
+    some [.start ['d', 'i', 'v'] [] false, .text [']', ']', '>', '<', 's', '>'], .end_ ['d', 'i', 'v']] := by decide +kernel
 
 /-! ## The order of the two CSS passes
 
